@@ -24,7 +24,7 @@ from s3transfer.utils import ChunksizeAdjuster as _RealAdjuster
 from . import detsched
 from .detsched import Sched, SHIM, DetExecutor, AbortExecution
 from .env.s3 import FakeS3, FakeClient, FaultPlan
-from .env.fs import FaultyOSUtils, ScratchDir, SourceStream, SinkStream
+from .env.fs import FaultyOSUtils, ScratchDir, SourceStream, SinkStream  # noqa: F401
 from .env.subs import RecSub
 
 _REPO = os.environ.get('VERIF_REPO') or '/repo'
